@@ -3,7 +3,7 @@ From Coq Require Import Reals.
 From Coquelicot Require Import Coquelicot.
 From Coq Require Import List.
 Import ListNotations.
-From SM Require Import C04.Proofs.
+From SM Require Import Base.Num C04.Model C04.Proofs.
 Open Scope R_scope.
 
 (* First-order error of a midpoint scheme, in discrete form: cells of mass
@@ -32,3 +32,16 @@ Theorem C04_ring_mass : forall a b : R,
   is_RInt (fun rho => rho * exp (- (rho * rho) / 2)) a b (exp (- (a * a) / 2) - exp (- (b * b) / 2)).
 Proof. exact ring_mass. Qed.
 Print Assumptions C04_ring_mass.
+
+(* 2-D: every sample of a data point's cloud is  q + (r dq_par cos a) q^ + (r dq_perp sin a) t^  with q^ = q/|q|
+   the direction of q (the cosine and sine of atan(qy/qx)) and t^ the tangential direction: the Gaussian is an
+   ellipse aligned with the q direction, dq_par its radial and dq_perp its tangential standard deviation
+   (qx > 0; for qx < 0 the cloud is the point reflection, C04/Proofs.sample_reflected). *)
+Theorem C04_cloud_aligned : forall qx qy dq_par dq_perp r cd sd : R, 0 < qx ->
+  let c := cos (atan (qy / qx)) in let s := sin (atan (qy / qx)) in
+  sample ROps sqrt qx qy dq_par dq_perp c s r cd sd =
+  (qx + (r * dq_par * cd) * c + (r * dq_perp * sd) * (- s),
+   qy + (r * dq_par * cd) * s + (r * dq_perp * sd) * c)
+  /\ c = qx / sqrt (qx * qx + qy * qy) /\ s = qy / sqrt (qx * qx + qy * qy).
+Proof. exact cloud_aligned. Qed.
+Print Assumptions C04_cloud_aligned.
